@@ -152,7 +152,7 @@ def run(chk):
     b = core.standard_build(chk)
     model = core.Model() if b.modelrun_ok else None
     full = chk.tier == 'thorough' or bool(b.drift) or not b.proof_ok
-    n = 480 if full else 60
+    n = core.budget(chk, full, 90, 480)
     chk.rule = ('generated **kern documents, half in the claimed core class (signatures before the first measure, splits '
                 're-joined before the next barline), the rest with mid-score signature changes, splits left open across barlines, '
                 'or non-kern spines beside the kern ones, x EVERY measure range; non-trivial = distinct (text, a, b)')
